@@ -33,6 +33,7 @@ func init() {
 		one("fsm_prefix_rule_lost", false, [][2]string{{"a.b.c", ""}, {"a.b", ""}}, 0, "a.b", nil)
 		one("fsm_duplicate_pattern_priority", false, [][2]string{{"a.b", ""}, {"*.b", ""}, {"a.b", ""}}, 0, "a.b", nil)
 		tmpl("template_dollar_in_reference", "*.*", "$1$2", "foo.bar")
+		tmpl("template_dollar_escape", "*", "$$1", "foo")
 		tmpl("template_has_percent", "*", "50%s-$1", "foo")
 		tmpl("template_ref_prefix_of_ref", "*.a", "$1-$11", "foo.a")
 		tmpl("template_brace_mismatch", "*", "${1", "foo")
